@@ -24,7 +24,7 @@ func init() {
 		Rule: "case = one valid encoding E (either variant, any producer store kind and layout, mapping embedded or omitted) on which faults are injected at the API boundary: EVERY cut E[:c], 0<=c<=|E|; at every block boundary the flag byte replaced by undefined flags (quick: 16 sampled per boundary, thorough: all of them; quadratic/quartic mapping flags count as unsupported); " +
 			"a receiver with a different mapping (other kind / accuracy / offset); mapping omitted and none supplied; each decoded by DecodeDDSketch, DecodeDDSketchWithExactSummaryStatistics and DecodeAndMergeWith into rotating store kinds, fresh and non-empty receivers. Oracle (block boundaries from the independent parser): cut strictly inside a block -> error, no panic; " +
 			"cut at a boundary -> success iff a mapping is available, with exactly the content of the complete blocks; undefined flag / mismatch / missing mapping -> error, no panic. Non-trivial = encoding with >=2 store blocks or >=3 block types; distinct = hash of E.",
-		Cases:     core.Scale(5000, 120000),
+		Cases:     core.Scale(40000, 400000),
 		Mandatory: []string{"fault.cut_inside_block", "fault.cut_at_boundary", "fault.flag_substitution", "fault.mapping_mismatch", "fault.missing_mapping", "cut.after_flag", "cut.between_primitives", "cut.in_varint", "cut.in_varfloat", "cut.in_float64", "decoder.exact", "decoder.plain", "receiver.nonempty", "oracle.boundary_content_checks"},
 		Assumptions: []string{
 			"block boundaries are those found by the independent parser on the complete encoding",
@@ -37,7 +37,7 @@ func init() {
 		Level: "exploration",
 		Rule: "case = sketch reached by a seeded history incl. cleared-then-refilled stores, negatives with every store kind and arbitrary non-negative float64 weights: ToProto -> proto.Marshal -> Unmarshal -> FromProtoWithStoreProvider(any kind) must give an Equals mapping and bitwise equal zero weight and bin weights (count within 1e-12); EncodeProto bytes must unmarshal to a message proto.Equal to ToProto(); " +
 			"hand-built messages mixing binCounts and contiguousBinCounts (dyadic weights where they overlap) must add up. Non-trivial = both stores non-empty and >=1 non-integer weight; distinct = hash of the history.",
-		Cases:     core.Scale(6000, 200000),
+		Cases:     core.Scale(60000, 1500000),
 		Mandatory: []string{"oracle.proto_roundtrips", "oracle.stream_equals_message", "oracle.mixed_message_checks", "weights.arbitrary", "source.cleared_then_refilled", "proto.target.dense", "proto.target.sparse", "proto.target.paginated", "proto.target.collapsing_lowest", "proto.target.collapsing_highest"},
 		Run:       runC09,
 	})
@@ -79,7 +79,7 @@ func runC08(c *core.Ctx) {
 	if c.Guard("Encode", func() { A.s.I().Encode(&e, omit) }) {
 		return
 	}
-	if len(e) > 1500 {
+	if len(e) > 4000 {
 		// keep the enumeration of cut points affordable: re-encode a smaller sketch
 		A = buildSource(c, r, "A", exact, m, spec, 8)
 		if A == nil {
@@ -280,7 +280,7 @@ func runC08(c *core.Ctx) {
 			default:
 				om, _ = gen.NewMapGamma(m.Kind, m.Gamma, m.Offset+[]float64{1, -1, 0.5, 1000}[r.Intn(4)])
 			}
-			if om == nil || om.M.Equals(m.M) {
+			if om == nil || gen.SameParams(om, m) {
 				continue
 			}
 			target := targets[r.Intn(5)]
